@@ -65,6 +65,9 @@ fuzz_target!(|data: &[u8]| {
     m.insert("true_negatives".into(), Y::Sequence(vec![]));
     let v = Y::Mapping(m);
     if let Ok(text) = serde_yaml::to_string(&v) {
+        if !common::nesting_in_scope(&text) {
+            return;
+        }
         if let Ok(rule) = tau_engine::Rule::from_str(&text) {
             common::exercise(rule);
         }
